@@ -39,6 +39,8 @@ type params struct {
 	Tags    string  `json:"tags"` // none | all | semver
 	DelNil  bool    `json:"delete_missing_nil"`
 	Seed    int64   `json:"seed"`
+	// Fault in (0,1]: one store call of the squash (at that fraction of its calls, counted by a dry run on a clone) fails
+	Fault float64 `json:"fault_at_fraction,omitempty"`
 }
 
 var semverLabels = []string{"1.2.3", "v1.2.3", "2.0.0", "v0.1.0", "10.20.30"}
@@ -82,6 +84,10 @@ func gen10(seed int64, tier string) []drv.Case {
 			cls = "empty-descriptor-leftover"
 		}
 		p := params{Events: evs, RetainN: 1 + r.Intn(5), Tags: []string{"none", "all", "semver"}[r.Intn(3)], DelNil: r.Intn(2) == 0, Seed: r.Int63()}
+		if i%4 == 2 && nb > 1 {
+			p.Fault, p.Tags = r.Float64(), []string{"all", "semver"}[r.Intn(2)]
+			cls = "squash-under-a-store-fault"
+		}
 		cs = append(cs, drv.Case{ID: fmt.Sprintf("%s-%d", cls, i), Class: cls, Params: drv.MustJSON(p)})
 	}
 	return cs
@@ -211,7 +217,55 @@ func run10(c drv.Case, res *drv.Result) {
 	}
 	nObjects := len(env.Meta.RawKeys()) + len(env.VMeta.RawKeys())
 	actor := memstore.NewActor("squasher").SetBudget(50*nObjects + 10000)
+	faultDesc := ""
+	if p.Fault > 0 {
+		dry := env.Clone()
+		da := memstore.NewActor("dry")
+		if derr := core.RepoSquash(dry.Stores(da), "r", opts...); derr == nil {
+			n, _ := da.Calls()
+			k := 1 + int(p.Fault*float64(n))
+			if k > n {
+				k = n
+			}
+			actor.SetFault(func(c memstore.Call) error {
+				if c.Index == k {
+					faultDesc = fmt.Sprintf("store call %d of %d (%s.%s %s) fails", k, n, c.Store, c.Op, c.Key)
+					res.Seen("faulted_call_kinds", c.Store+"."+c.Op)
+					return memstore.ErrInjected
+				}
+				return nil
+			})
+		}
+	}
 	err = core.RepoSquash(env.Stores(actor), "r", opts...)
+	if faultDesc != "" {
+		// whatever the squash reports under the fault, everything that had to be kept is still there: the descriptors
+		// of the bundles to keep and the labels pointing at them
+		res.Stat("squashes_under_a_store_fault", 1)
+		if err != nil {
+			res.Stat("squashes_reporting_the_fault", 1)
+		}
+		for id := range survivors {
+			if raw, ok := env.Meta.RawGet(model.GetArchivePathToBundle("r", id)); !ok || len(raw) == 0 {
+				res.Violate("bundle-removed-by-faulted-squash", "a-bundle-to-keep", "squash (retain %d, tags %s) under a fault (%s; result %v) removed the descriptor of %s, which had to be kept", p.RetainN, p.Tags, faultDesc, err, id)
+				return
+			}
+		}
+		for l, id := range labels {
+			if !survivors[id] {
+				continue
+			}
+			if _, ok := env.VMeta.RawGet(model.GetArchivePathToLabel("r", l)); !ok {
+				res.Violate("label-removed-by-faulted-squash", "label-of-a-kept-bundle", "squash (retain %d, tags %s) under a fault (%s; result %v) removed label %q of bundle %s, which had to be kept", p.RetainN, p.Tags, faultDesc, err, l, id)
+				return
+			}
+		}
+		if err != nil {
+			res.Nontrivial, res.Canon = len(comm) > 0, string(c.Params)
+			res.Sample = map[string]interface{}{"committed": len(comm), "retain_n": p.RetainN, "tags": p.Tags, "fault": faultDesc, "squash_result": fmt.Sprint(err)}
+			return
+		}
+	}
 	calls, _ := actor.Calls()
 	res.Stat("squashes", 1)
 	res.Stat("store_calls_of_squash", int64(calls))
